@@ -540,3 +540,19 @@ package middleware
 //@ func NotImplemented
 //@ watch ER = call Error
 //@ ensures [C08:notimplemented] calls(ER) == 1 && arg(ER,0,0) == 501 && arg(ER,0,1) == boxof(message) && result == ret(ER,0,0)
+
+// ---------------------------------------------------------------- small helpers (frames)
+
+//@ func (*validation).debugLogf
+//@ requires v != nil && v.context != nil && v.context.debugLogf != nil
+//@ assigns \opaque
+
+//@ func normalizeOffers
+//@ ensures len(norm) == len(orig) && forall k int :: 0 <= k && k < len(orig) ==> norm[k] == norm(orig[k])
+//@ assigns \nothing
+//@ loop 0 invariant len(norm) == rangeindex + 1
+//@ loop 0 invariant norm == nil || fresh(norm)
+//@ loop 0 invariant forall k int :: 0 <= k && k <= rangeindex ==> norm[k] == norm(orig[k])
+
+//@ func cantFindProducer
+//@ assigns \nothing
